@@ -5,7 +5,12 @@ from .. import sessrun
 
 def run(ctx):
     out = Outcome()
-    sessrun.run_property(ctx, out, "C05")
+    # outbound histories over every kind of journaled message (application, declined, session, hole, carrying its own
+    # OrigSendingTime, PossDupFlag=N spelled out) x ResendRequests served in between x a fresh send afterwards
+    from .c06 import journal_specs
+    extra = journal_specs(1 if ctx.quick else 3)
+    out.extra["journal_x_request_traces"] = len(extra)
+    sessrun.run_property(ctx, out, "C05", extra_specs=extra)
     return out
 
 
